@@ -8,7 +8,7 @@ use refimpl::ntlm::{self, Account, Challenge};
 use serde::{Deserialize, Serialize};
 
 pub const LEVEL: &str = "exploration";
-pub const RULE: &str = "case = (domain, user, password or NT hash; CHALLENGE with an 8-byte server challenge, target name, a random subset and order of AV pairs 1..10 always containing MsvAvTimestamp, flags = mandatory set plus a random subset of VERSION / UNICODE / 56 / REQUEST_TARGET / TARGET_TYPE_*, payload order and padding variants). Oracle = independent MS-NLMP server verification given only the three messages and the account's NT hash: all offset/length pairs inside the token and non-overlapping, user/domain decode to the account, NTProofStr verifies, client-challenge blob well formed with the server's timestamp and AV pairs, LM response Z(24) or valid LMv2, RC4-wrapped session key unwraps, MIC verifies over the three messages; then a message sealed by build_security_interface() unseals under keys derived from the unwrapped session key. hash-login and password-login verify against the same account. edge-code-points puts each code point at the edges of the UTF-8 / UTF-16 forms (U+7F/80, U+7FF/800, U+D7FF/E000, U+FFFF/10000/10001, U+10FFFF ...) into each identity field at each position; one case in six lets the same context answer one or two earlier CHALLENGEs first (re-authentication) and verifies the last handshake; matrix enumerates every subset of the five optional flags x every subset of the nine optional AV pairs x both payload orders, and every (user length, domain length) and (user length, password length) pair in 0..=40. Non-trivial = non-empty credentials and >= 2 AV pairs; distinct by hash of the case.";
+pub const RULE: &str = "case = (domain, user, password or NT hash; CHALLENGE with an 8-byte server challenge, target name, a random subset and order of AV pairs 1..10 always containing MsvAvTimestamp, flags = mandatory set plus a random subset of VERSION / UNICODE / 56 / REQUEST_TARGET / TARGET_TYPE_*, payload order and padding variants). Oracle = independent MS-NLMP server verification given only the three messages and the account's NT hash: all offset/length pairs inside the token and non-overlapping, user/domain decode to the account, NTProofStr verifies, client-challenge blob well formed with the server's timestamp and AV pairs, LM response Z(24) or valid LMv2, RC4-wrapped session key unwraps, MIC verifies over the three messages; then a message sealed by build_security_interface() unseals under keys derived from the unwrapped session key. hash-login and password-login verify against the same account. edge-code-points puts each code point at the edges of the UTF-8 / UTF-16 forms (U+7F/80, U+7FF/800, U+D7FF/E000, U+FFFF/10000/10001, U+10FFFF ...) into each identity field at each position; one case in six lets the same context answer one or two earlier CHALLENGEs first (re-authentication) and verifies the last handshake; large-fields: domain / user names of up to 32767 characters and target information of up to 65 000 bytes (every field fits its 16-bit length, the payload crosses 64 KiB); one case in six hands the context a refused CHALLENGE (no timestamp, truncated, offset outside the message, no target information) before the real one; matrix enumerates every subset of the five optional flags x every subset of the nine optional AV pairs x both payload orders, and every (user length, domain length) and (user length, password length) pair in 0..=40. Non-trivial = non-empty credentials and >= 2 AV pairs; distinct by hash of the case.";
 
 #[derive(Serialize, Deserialize, Hash, Clone, Debug)]
 pub struct Case {
@@ -21,10 +21,14 @@ pub struct Case {
     /// CHALLENGE messages the same context has already answered before the one that is verified (re-authentication on one context)
     #[serde(default)]
     pub earlier: Vec<Challenge>,
+    /// byte strings the same context was handed as CHALLENGE before (refused ones: no timestamp, truncated, bad offsets);
+    /// whatever it made of them, the token for the real CHALLENGE must verify
+    #[serde(default)]
+    pub earlier_raw: Vec<Vec<u8>>,
 }
 
-pub fn run(c: &Case) -> Outcome {
-    let mut out = Outcome::new();
+/// the handshake part: returns the context and the exported session key the independent verifier recovered
+pub fn handshake(c: &Case, out: &mut Outcome) -> Option<(Ntlm, Vec<u8>)> {
     out.nontrivial(!c.user.is_empty() && !c.password.is_empty() && c.challenge.target_info.len() >= 2);
     out.label(if c.from_hash { "from-hash" } else { "from-password" });
     if c.challenge.flags & ntlm::NEG_VERSION != 0 {
@@ -45,16 +49,16 @@ pub fn run(c: &Case) -> Outcome {
         Res::Ok(v) => v,
         Res::Err(e) => {
             out.fail("ntlm:negotiate-error", e);
-            return out;
+            return None;
         }
         Res::Panic(p) => {
-            fail_panic(&mut out, "create_negotiate_message", &p);
-            return out;
+            fail_panic(out, "create_negotiate_message", &p);
+            return None;
         }
     };
     if let Err(e) = ntlm::parse_negotiate(&nego) {
         out.fail("ntlm:negotiate-malformed", format!("{} ({})", e.0, hexs(&nego)));
-        return out;
+        return None;
     }
     for (i, e) in c.earlier.iter().enumerate() {
         let eb = ntlm::build_challenge(e);
@@ -63,27 +67,42 @@ pub fn run(c: &Case) -> Outcome {
             Res::Ok(_) => {}
             Res::Err(err) => {
                 out.fail("ntlm:challenge-rejected", format!("conforming earlier CHALLENGE #{} rejected: {}; {:?}", i, err, e));
-                return out;
+                return None;
             }
             Res::Panic(p) => {
-                fail_panic(&mut out, "read_challenge_message", &p);
-                return out;
+                fail_panic(out, "read_challenge_message", &p);
+                return None;
             }
         }
     }
     if !c.earlier.is_empty() {
         out.label("re-authentication");
     }
+    for raw in c.earlier_raw.iter() {
+        let (r, _) = call(|| n.read_challenge_message(raw));
+        match r {
+            Res::Panic(p) => {
+                fail_panic(out, "read_challenge_message", &p);
+                return None;
+            }
+            Res::Ok(_) => {
+                out.label("earlier-raw-accepted");
+            }
+            Res::Err(_) => {
+                out.label("after-refused-challenge");
+            }
+        }
+    }
     let (r, _) = call(|| n.read_challenge_message(&chal.bytes));
     let auth = match r {
         Res::Ok(v) => v,
         Res::Err(e) => {
             out.fail("ntlm:challenge-rejected", format!("conforming CHALLENGE rejected: {}; {:?}", e, c.challenge));
-            return out;
+            return None;
         }
         Res::Panic(p) => {
-            fail_panic(&mut out, "read_challenge_message", &p);
-            return out;
+            fail_panic(out, "read_challenge_message", &p);
+            return None;
         }
     };
     let v = match ntlm::verify_authenticate(&account, &nego, &chal.bytes, &c.challenge, &auth) {
@@ -91,11 +110,20 @@ pub fn run(c: &Case) -> Outcome {
         Err(e) => {
             let class = e.split(':').next().unwrap_or("?").to_string();
             out.fail(format!("ntlm:verify:{}", class), format!("{}; AUTHENTICATE = {}", e, hexs(&auth)));
-            return out;
+            return None;
         }
     };
+    Some((n, v.exported_session_key.clone()))
+}
+
+pub fn run(c: &Case) -> Outcome {
+    let mut out = Outcome::new();
+    let (mut n, exported) = match handshake(c, &mut out) {
+        Some(x) => x,
+        None => return out,
+    };
     // session security built from the handshake must interoperate with keys the verifier derives
-    let keys = crypto::session_keys(&v.exported_session_key);
+    let keys = crypto::session_keys(&exported);
     let (r, _) = call(|| {
         let mut si = n.build_security_interface();
         let a = si.gss_wrapex(&c.message)?;
@@ -199,6 +227,7 @@ pub fn gen_challenge(s: &mut Src, unicode_names: bool) -> Challenge {
 }
 
 pub fn decode(s: &mut Src) -> Case {
+    let refused = s.chance(40);
     let domain = gen_name(s, 16);
     let user = gen_name(s, 20);
     let password = crate::mem::gen_string(s, 32);
@@ -213,7 +242,35 @@ pub fn decode(s: &mut Src) -> Case {
     } else {
         Vec::new()
     };
-    Case { domain, user, password, from_hash, challenge, message, earlier }
+    let mut earlier_raw = Vec::new();
+    if refused {
+        let mut bad = challenge.clone();
+        let b = match s.below(4) {
+            0 => {
+                bad.target_info.retain(|(id, _)| *id != 7);
+                ntlm::build_challenge(&bad).bytes
+            }
+            1 => {
+                let full = ntlm::build_challenge(&bad).bytes;
+                let k = 32 + s.below(full.len().saturating_sub(32).max(1));
+                full[..k.min(full.len())].to_vec()
+            }
+            2 => {
+                let mut full = ntlm::build_challenge(&bad).bytes;
+                // TargetInfoBufferOffset far outside the message
+                if full.len() > 48 {
+                    full[44..48].copy_from_slice(&0x00FF_FFFFu32.to_le_bytes());
+                }
+                full
+            }
+            _ => {
+                bad.target_info.clear();
+                ntlm::build_challenge(&bad).bytes
+            }
+        };
+        earlier_raw.push(b);
+    }
+    Case { domain, user, password, from_hash, challenge, message, earlier, earlier_raw }
 }
 
 /// every subset of the optional flags x every subset of the optional AV pairs x both payload orders, and
@@ -232,6 +289,7 @@ fn matrix(part: usize, parts: usize) -> impl Iterator<Item = Case> {
             challenge: Challenge { flags: ntlm::MANDATORY | ntlm::NEG_UNICODE, server_challenge: vec![1, 2, 3, 4, 5, 6, 7, 8], target_name: refimpl::crypto::utf16le("SRV"), target_info: Vec::new(), version: vec![6, 1, 0xB1, 0x1D, 0, 0, 0, 15], payload_order: 0, gap: 0, max_len_delta: 0 },
             message: vec![0x42; 9],
             earlier: Vec::new(),
+            earlier_raw: Vec::new(),
         };
         if i < n_flag_av {
             let fm = i % 32;
@@ -293,9 +351,28 @@ pub fn check(rep: &Report) {
         }
     }
     rep.list("edge-code-points", edges, run);
+    // long fields: every field still fits its 16-bit length, but the payload as a whole crosses 64 KiB
+    let mut large = Vec::new();
+    for (dl, ul, til) in [(20000usize, 13000usize, 40usize), (3000, 1000, 59000), (32767, 0, 40), (0, 32767, 40), (16384, 16384, 40), (100, 100, 65000), (10000, 10000, 20000), (32767, 32767, 65000), (1, 1, 65400), (16000, 16000, 1000), (8192, 8192, 32768)] {
+        for from_hash in [false, true] {
+            for version in [false, true] {
+                let mut c = matrix(0, 1).next().unwrap();
+                c.domain = "D".repeat(dl);
+                c.user = "u".repeat(ul);
+                c.from_hash = from_hash;
+                if version {
+                    c.challenge.flags |= ntlm::NEG_VERSION;
+                }
+                c.challenge.target_info = vec![(7, vec![3; 8]), (2, vec![0x42; til])];
+                large.push(c);
+            }
+        }
+    }
+    rep.list("large-fields", large, run);
     rep.random("tokens", rep.tier.n(300_000, 6_000_000), 200, decode, run);
     rep.require("tokens", "from-hash", 2000);
     rep.require("tokens", "version-flag", 2000);
     rep.require("tokens", "non-ascii", 2000);
     rep.require("tokens", "re-authentication", 2000);
+    rep.require("tokens", "after-refused-challenge", 2000);
 }
